@@ -1,5 +1,7 @@
 import XsgModel.Props.C02
 import XsgModel.Props.C10
+import XsgModel.Proofs.DeserSxr
+import XsgModel.Proofs.DeserScope
 /-!
 # C13 — serde-xml-rs preset: generated code compiles and deserializes its sources  (PARTIAL, known finding K1)
 
@@ -44,5 +46,99 @@ theorem C13_attr_binding (im : IdentMap) (a : Nec × Name) :
     ((attrField Options.serdeXmlRs im a).rename.getD (attrField Options.serdeXmlRs im a).ident) = attrLocal a.2 := by
   have := (C01_attr_field Options.serdeXmlRs im a).2.2.2
   simpa [Options.serdeXmlRs] using this
+
+/-! ### with the model of `serde_xml_rs` (`Model/Deser.lean`) -/
+
+/-- **C13, deserialization** (relative to the deserializer model, which the compile-and-run correspondence ties
+to the real crate): for every history of well-formed documents with their values, inside the property's scope
+(`sxrOK`: no `:` in names, attribute names of a position distinct from its child names; `adjacentOK`: repeated
+children adjacent; `inModel`: no mixed content), `from_str` into the first rendered struct succeeds on every
+source document, and the non-empty strings of the value are exactly what the structs have a place for
+(`VNode.kept false`): every attribute value and the character data of every `String`-typed element.  The
+character data of an element rendered as a struct is *not* among them: known finding K1. -/
+theorem C13_deserializes (H : List VDoc) (h : historyOk (H.map VDoc.erase)) :
+    ∃ t, parseHistory ((H.map VDoc.erase).map Doc.events) = .ok t ∧
+      (t.sxrOK = true → ∀ d ∈ H, d.root.adjacentOK = true → d.root.inModel DeCfg.serdeXmlRs = true →
+        ∃ v, deDoc DeCfg.serdeXmlRs ((renderAST Options.serdeXmlRs t).map StructDef.plain) false d.root = .ok v ∧
+          (ne v.strings).Perm (ne (d.root.kept false DeCfg.serdeXmlRs t))) := by
+  obtain ⟨t, ht, hadm⟩ := C01_sound _ h
+  refine ⟨t, ht, ?_⟩
+  intro hk d hd hadj hmodel
+  have hinv := C11_parsed_inv _ t ht
+  have hdm : d.erase ∈ H.map VDoc.erase := List.mem_map_of_mem hd
+  have hok : d.root.erase.ok = true := by
+    have := h.2.1 d.erase hdm
+    simp only [Doc.ok, VDoc.erase, Bool.and_eq_true] at this
+    exact this.1.2
+  obtain ⟨r, hr⟩ : ∃ r, walk oS.sort [] [] t = ⟨[t.name], [pascal t.name], t⟩ :: r := by
+    have := walk_head oS.sort t
+    cases hw : walk oS.sort [] [] t with
+    | nil => rw [hw] at this; cases this
+    | cons b r => rw [hw] at this; simp only [List.head?_cons, Option.some.injEq] at this; exact ⟨r, by rw [this]⟩
+  have hen : (⟨[t.name], [pascal t.name], t⟩ : Entry) ∈ walk oS.sort [] [] t := by rw [hr]; simp
+  obtain ⟨v, hv, hp⟩ := deNode_sxr t hinv d.root ⟨[t.name], [pascal t.name], t⟩ hen hk hadj hinv (hadm d.erase hdm) hok hmodel
+  refine ⟨v, ?_, hp⟩
+  have hp' : (renderAST oS t).map StructDef.plain
+      = (structOf oS (hintOf (fillNames [] t)) (structNames (hintOf (fillNames [] t)) t) ⟨[t.name], [pascal t.name], t⟩).plain
+        :: (r.map (structOf oS (hintOf (fillNames [] t)) (structNames (hintOf (fillNames [] t)) t))).map StructDef.plain := by
+    simp only [renderAST, renderWith, hr, List.map_cons]
+  show deDoc cS ((renderAST oS t).map StructDef.plain) false d.root = .ok v
+  rw [hp'] at hv ⊢
+  exact hv
+
+/-- **C13 with the scope stated on the documents**: `sxrOK` of the executable schema of the history. -/
+theorem C13_holds (H : List VDoc) (h : historyOk (H.map VDoc.erase))
+    (hk : (specOfDocs ((H.map VDoc.erase).map (·.root))).sxrOK = true) :
+    ∃ t, parseHistory ((H.map VDoc.erase).map Doc.events) = .ok t ∧
+      ∀ d ∈ H, d.root.adjacentOK = true → d.root.inModel DeCfg.serdeXmlRs = true →
+        ∃ v, deDoc DeCfg.serdeXmlRs ((renderAST Options.serdeXmlRs t).map StructDef.plain) false d.root = .ok v ∧
+          (ne v.strings).Perm (ne (d.root.kept false DeCfg.serdeXmlRs t)) := by
+  obtain ⟨t, ht, hmain⟩ := C13_deserializes H h
+  obtain ⟨t', ht', habs⟩ := C03_spec_exact _ h
+  have : t' = t := by rw [ht] at ht'; exact (Except.ok.inj ht').symm
+  subst this
+  refine ⟨t', ht, hmain ?_⟩
+  rw [← abs_sxrOK, habs]
+  exact hk
+
+namespace C13Example
+/-- `<r><e k="1">hi</e><f>t</f></r>` -/
+def d1 : VDoc := ⟨.nil, .mk (cl!"r") [] false
+  (.elem (.mk (cl!"e") [(cl!"k", cl!"1")] false (.text false (cl!"hi") .nil))
+  (.elem (.mk (cl!"f") [] false (.text false (cl!"t") .nil)) .nil)), .nil⟩
+def H : List VDoc := [d1]
+
+theorem ok : historyOk (H.map VDoc.erase) := by
+  refine ⟨by simp [H], ?_, ?_⟩
+  · intro d hd
+    simp only [H, List.map_cons, List.map_nil, List.mem_cons, List.mem_nil_iff, or_false] at hd
+    subst hd; decide
+  · intro d hd d' hd'
+    simp only [H, List.map_cons, List.map_nil, List.mem_cons, List.mem_nil_iff, or_false] at hd hd'
+    subst hd; subst hd'; rfl
+
+/-- the tree the library builds for this history (evaluated in the kernel) -/
+def t : Elem := match parseHistory ((H.map VDoc.erase).map Doc.events) with | .ok t => t | .error _ => default
+
+theorem parsed : parseHistory ((H.map VDoc.erase).map Doc.events) = .ok t := by
+  obtain ⟨t', ht', _⟩ := C01_sound _ ok
+  unfold t
+  rw [ht']
+
+/-- non-vacuity of `C13_deserializes`, and K1 as a statement about the model: the document is in scope, it
+deserializes, the attribute value and the text of the `String`-typed `f` are kept — and `hi`, the character
+data of `e` (rendered as a struct because it has an attribute), is not. -/
+theorem K1_witness :
+    t.sxrOK = true ∧ d1.root.adjacentOK = true ∧ d1.root.inModel DeCfg.serdeXmlRs = true ∧
+    d1.root.kept false DeCfg.serdeXmlRs t = [cl!"1", cl!"t"] ∧ d1.root.values DeCfg.serdeXmlRs = [cl!"1", cl!"hi", cl!"t"] := by
+  decide +kernel
+theorem scope : (specOfDocs ((H.map VDoc.erase).map (·.root))).sxrOK = true := by decide +kernel
+
+/-- non-vacuity of `C13_holds` -/
+example : ∃ t, parseHistory ((H.map VDoc.erase).map Doc.events) = .ok t ∧
+    ∀ d ∈ H, d.root.adjacentOK = true → d.root.inModel DeCfg.serdeXmlRs = true →
+      ∃ v, deDoc DeCfg.serdeXmlRs ((renderAST Options.serdeXmlRs t).map StructDef.plain) false d.root = .ok v ∧
+        (ne v.strings).Perm (ne (d.root.kept false DeCfg.serdeXmlRs t)) := C13_holds H ok scope
+end C13Example
 
 end Xsg
